@@ -93,6 +93,26 @@ def lib_decode(dec, blob, count_steps):
                  'congestion_mark': r.congestion_mark, 'incoming_face_id': r.incoming_face_id,
                  'next_hop_face_id': r.next_hop_face_id, 'non_discovery': bool(r.non_discovery),
                  'cache_policy': None if r.cache_policy is None else r.cache_policy.cache_policy_type}
+            # the other documented entry points for the same packet (legacy tuple form; Value without the outer TL) agree with it
+            f['entry_points'] = 'same'
+            try:
+                t_, s1 = enc.parse_tl_num(blob, 0)
+                l_, s2 = enc.parse_tl_num(blob, s1)
+                value = blob[s1 + s2:]
+                want_pair = (None if r.nack is None else (r.nack.nack_reason if r.nack.nack_reason is not None else 0), f['fragment'])
+                for label, call in (('parse_lp_packet', lambda: enc.ndnlp_v2.parse_lp_packet(blob)),
+                                    ('parse_lp_packet(value, with_tl=False)', lambda: enc.ndnlp_v2.parse_lp_packet(value, with_tl=False))):
+                    rr, ff = call()
+                    got_pair = (None if rr is None else int(rr), None if ff is None else bytes(ff))
+                    if got_pair != want_pair:
+                        f['entry_points'] = f'{label} gives {got_pair[0]}/{None if got_pair[1] is None else len(got_pair[1])}'
+                r3 = enc.parse_lp_packet_v2(value, with_tl=False)
+                if (None if r3.fragment is None else bytes(r3.fragment)) != f['fragment'] or (r3.nack is None) != (r.nack is None):
+                    f['entry_points'] = 'parse_lp_packet_v2(value, with_tl=False) differs'
+            except StepLimit:
+                raise
+            except Exception as e:  # noqa
+                f['entry_points'] = f'another entry point raises {type(e).__name__}'
         elif dec == 'cert':
             r = parse_certificate(blob)
             si = r.signature_info
@@ -157,6 +177,7 @@ def ref_decode(dec, blob):
             r = ns.read_lp(blob)
             f = {k: r[k] for k in ('pit_token', 'nack', 'fragment', 'congestion_mark', 'incoming_face_id',
                                    'next_hop_face_id', 'non_discovery', 'cache_policy')}
+            f['entry_points'] = 'same'
         else:
             e = ts.read_el(blob, 0, len(blob), minimal=False)     # bytes after the Name element are not this decoder's business
             if e.typ != 7:
@@ -334,6 +355,38 @@ def uint_width_edits(wire):
     return out
 
 
+# elements whose value is a NonNegativeInteger of any of the widths 1, 2, 4, 8 (not the fixed-width Nonce / HopLimit)
+INT_TYPES = {0x0c, 0x18, 0x19, 0x1b, 0x0321, 0x0340, 0x032c, 0x0330, 0x0335, 0x0348}
+
+
+def legal_width_edits(wire):
+    """every NonNegativeInteger element at the first three nesting levels re-encoded in each other legal width"""
+    out = []
+
+    def rec(buf, depth, rebuild):
+        try:
+            ch = ts.read_seq(buf, 0, len(buf), minimal=False)
+        except ts.Malformed:
+            return
+        for i, c in enumerate(ch):
+            parts = [x.wire for x in ch]
+            if c.typ in INT_TYPES and c.length in (1, 2, 4, 8):
+                n = int.from_bytes(c.value, 'big')
+                for w in (1, 2, 4, 8):
+                    if w != c.length and n < 1 << (8 * w):
+                        parts2 = list(parts)
+                        parts2[i] = ts.tlv(c.typ, n.to_bytes(w, 'big'))
+                        out.append(rebuild(b''.join(parts2)))
+            elif depth < 3 and c.length > 1 and c.typ not in (7, 0x15, 0x17, 0x24, 0x2e):
+                def rb(v, i=i, c=c, parts=parts):
+                    p2 = list(parts)
+                    p2[i] = ts.tlv(c.typ, v)
+                    return rebuild(b''.join(p2))
+                rec(c.value, depth + 1, rb)
+    rec(wire, 0, lambda v: v)
+    return out
+
+
 def space(tier, which):
     cp = get_corpus()
     if which == 'short':
@@ -386,6 +439,8 @@ def space(tier, which):
                         'lp-nack-no-fragment', 'unknown-type'):
                 continue
             yield name, w
+            for m in legal_width_edits(w):
+                yield name, m
             top = ts.read_single(w)
             ch = top.children()
             for unk in (ts.tlv(0x7c, b''), ts.tlv(0xf0, b'unknown'), ts.tlv(0xfffe, b'\x01')):
